@@ -35,10 +35,10 @@ CHECKS = {
    technique="bounded-exhaustive enumeration of structured messages (name-sharing patterns, every first-written offset around 0x4000 and 0xffxx) and single-octet-exhaustive mutations of their encodings, through the real parser/serialiser and an independent strict decoder",
    text="Every structured message of the grammar and every accepted mutated byte string is encoded by the real serialiser, decoded by the real parser (must equal) and by an independent strict decoder (counts, no trailing octets, pointers strictly backwards and < 0x4000, RDLENGTH = typed rdata).",
    note="Names over 3 labels {a,b,63x'x'} up to depth 3; messages up to 65535 octets only in the boundary family; the 255-octet name limit is recorded, not judged."),
- "C04": dict(level="exploration", engine="E-ENUM", design="5/C04",
+ "C04": dict(level="exploration", engine="E-ENUM + E-NET", design="5/C04",
    technique="bounded-exhaustive enumeration of (size limit x full-size delta x message family) through the real serialise_with_size, judged by an independent strict decoder",
    text="serialise_with_size is executed for every limit 512..4096 (and 8 larger limits up to 65535) with the full message sized limit+delta for every delta around the limit, over 6 message families; each output is decoded strictly (counts = contents, no trailing octets), must be <= limit, a record-prefix of the full message, TC iff a record is missing, complete when it fits.",
-   note="Function-level part; the UDP/TCP transport choice of the limit is decided by the E-NET part when wired in."),
+   note="Two parts: function level (serialise_with_size) and end to end against the live service (E-NET: advertised sizes x reply sizes x UDP/TCP x 3 answer shapes). OPT-only omission is don't-care."),
  "C05": dict(level="exploration", engine="E-ENUM", design="5/C05",
    technique="bounded-exhaustive byte-string enumeration (all strings <=3 octets; seeds x every offset x all 256 values; all marked-field pairs x boundary values; every truncation) through the real decoders and receive-path code, panic hook + overflow checks on",
    text="Every network-facing decoder plus the code its receive path runs on the decoded value (handle_pkt, option logging, reply framing; DNS accessors used by listener, cache and upstream-result paths; LLDP TLV logging) is run on the whole enumerated input set; any panic/overflow/out-of-bounds is a violation; afterwards each handler must still answer a valid request.",
